@@ -1085,6 +1085,12 @@ pub fn run(args: &Args) {
                 texts.push(format!("([[[{}]],[[{}]]][1][0][0]) {}", a, b, use_a));
                 texts.push(format!("([({},),({},{})][1].1) {}", a, b, b, use_a));
                 texts.push(format!("(if true then [[{}]] else [[{}]])[0][0] {}", b, a, use_a));
+                // the same through let-bound composites: two variables of the same outer shape, the branch taken is the second
+                texts.push(format!("let a=({},2);b=({},2) in ((if false then a else b).0) {}", a, b, use_a));
+                texts.push(format!("let a=[{}];b=[{}] in ((false ? a : b)[0]) {}", a, b, use_a));
+                texts.push(format!("let a=({},);b=({},{}) in ((if request.target.port == 0 then a else b).0) {}", a, b, b, use_a));
+                texts.push(format!("let a=[[{}]];b=[[{}]] in ((if request.target.port == 0 then a else b)[0][0]) {}", a, b, use_a));
+                texts.push(format!("let a=({},{});b=({},) in ((if false then a else b).1) {}", a, a, a, use_a));
             }
         }
         for t in ["[[1],[1 + \"a\"]][1][0] == 1", "[(1,2),(3,)][1].1 == 1", "[[1,2],[true]][1][0] && true", "[[\"a\"],[2]][1][0] =~ \"a\"", "[(1,\"a\"),(\"a\",1)][1].0 + 1 == 2",
